@@ -18,7 +18,7 @@ RULE = ('histories (operation lists) of Model / AttackerAttachment calls with va
         'allow_duplicate_names), remove_asset (live / removed / foreign), add_association (single and '
         'multi-member, self links, reflexive associations holding the same assets on both sides, duplicate pair, repeated member, same object again), remove_association, '
         'remove_asset_from_association (1-member field, multi-member field, non-member), add/remove attacker, '
-        'add/remove entry point - bounded-exhaustive over an 21-operation alphabet on a tiny language, random '
+        'add/remove entry point - bounded-exhaustive over a 21-operation alphabet on a tiny language, random '
         'over a tiny fixed language and generated languages. Oracle: abstract reference model (mtv/ref_model.py) '
         'deciding accept / must-raise and the next state; after every step _to_dict(), get_asset_by_id/name, '
         'asset.associations, neighbours of every (asset, field) and attackers must equal the abstraction. '
@@ -497,7 +497,7 @@ def corelang_histories(draw, max_ops=20):
 
 CLAUSES = [
     Clause('short-histories-exhaustive', check_case, kind='exhaustive', enumerate=_enum,
-           space='all operation sequences of length <=3 (quick) / <=4 (thorough) over an 21-operation alphabet on the tiny language'),
+           space='all operation sequences of length <=3 (quick) / <=4 (thorough) over a 21-operation alphabet on the tiny language'),
     Clause('short-histories-from-populated-model', check_case, kind='exhaustive', enumerate=_enum_populated,
            space='all operation sequences of length <=2 (quick) / <=3 (thorough) over the same alphabet, applied to a model that already holds two hosts and a data asset'),
     Clause('tiny-language-histories', check_case, kind='random', strategy=lambda: tiny_histories(25),
